@@ -6,6 +6,6 @@ const (
 )
 
 const (
-	c26Comps   = 3
-	c26LexLen  = 7
+	c26Comps  = 3
+	c26LexLen = 7
 )
